@@ -41,13 +41,25 @@ structure Req where
   args : List Json
   fuel : Nat
   draws : List Rat
+  oracle : Json := Json.null
 
 def parseReq (j : Json) : Except String Req := do
   let k ← str? (← field j "k")
   let args ← arr? (← field j "args")
   let fuel ← match j.getObjVal? "fuel" with | .ok f => nat? f | .error _ => pure 0
   let draws ← match j.getObjVal? "draws" with | .ok d => rats? d | .error _ => pure []
-  return ⟨k, args, fuel, draws⟩
+  let oracle := match j.getObjVal? "oracle" with | .ok o => o | .error _ => Json.null
+  return ⟨k, args, fuel, draws, oracle⟩
+
+/-- stand-in for an ORACLE parameter of a translated function when it is RUN by the harness: the answer the real external
+function gave on this input is supplied in the request (`"oracle": {key: value}`); an absent key means the oracle raised -/
+def oracleVec (key : String) (r : Req) : List (List Rat) → Py (List Rat) := fun _ =>
+  match r.oracle.getObjVal? key with
+  | .ok j =>
+    match (JCodec.dec j : Except String (List Rat)) with
+    | .ok v => .ok v
+    | .error _ => .error .other
+  | .error _ => .error .other
 
 partial def loop (dispatch : Req → Except String Json) (h out : IO.FS.Stream) : IO Unit := do
   let line ← h.getLine
